@@ -936,6 +936,25 @@ def c05_programs(tier, sd):
                 ops.append(["randomize", ["top"]])
             out.append({"tag": "soft", "desc": "softs %s inline %s" % (body, il), "prog": pr, "world": [["top", "obj", "Top"]],
                         "ops": ops, "soft_order_fixed": True})
+    # a failing call first: priorities / per-call soft state of the failed call must not carry over
+    unsat_il = [E(["==", b, lit(1)]), E(["==", b, lit(2)])]
+    f3 = [fld("a", ("u", 4)), fld("b", ("u", 4)), fld("c", ("u", 4)), fld("n", ("u", 4), False)]
+    for body in ([S(["==", a, lit(1)]), S(["==", b, lit(2)]), S(["==", F("c"), lit(3)])], [S(["==", a, lit(1)]), S(["==", a, lit(2)])],
+                 [S(["<", a, lit(5)]), S(["==", b, lit(2)]), S([">", F("c"), lit(9)])]):
+        for il in ([S(["==", a, lit(9)]), S(["==", b, lit(8)])], [S(["==", b, lit(8)])], [S(["==", F("c"), lit(0)]), S(["==", a, lit(4)])]):
+            out.append({"tag": "soft_after_failure", "desc": "failed call, then inline softs %s over class softs %s" % (il, body), "prog": one_class(f3, body),
+                        "world": [["top", "obj", "Top"]],
+                        "ops": [["randomize", ["top"]], ["randomize_with", ["top"], unsat_il], ["randomize_with", ["top"], il], ["randomize_with", ["top"], il],
+                                ["randomize_with", ["top"], unsat_il + il], ["randomize", ["top"]], ["randomize_with", ["top"], il]], "soft_order_fixed": True})
+    # softs in a rand set that is merged with another one through a constant subscript of a list
+    fl = [fld("a", ("u", 4)), fld("b", ("u", 4)), ["arr", "list", ["u", 4], 3, True, False], fld("n", ("u", 4), False)]
+    A1 = F("arr", 1)
+    for body in ([S(["==", a, lit(5)]), E([">", A1, lit(2)]), E(["<", a, A1])], [S(["==", a, lit(5)]), E([">", A1, lit(2)]), E([">", A1, a])],
+                 [E(["<", F("arr", 0), lit(9)]), S(["==", b, lit(3)]), S(["==", a, lit(5)]), E(["!=", ["+", a, F("arr", 0)], lit(20)]), E(["<", b, F("arr", 2)])],
+                 [S(["==", F("arr", 2), lit(7)]), E(["<", a, lit(9)]), E(["<=", a, F("arr", 2)]), S(["==", a, lit(8)])]):
+        out.append({"tag": "soft_merge", "desc": "softs across rand sets merged through a list subscript %s" % (body,), "prog": one_class(fl, body),
+                    "world": [["top", "obj", "Top"]], "ops": [["randomize", ["top"]], ["randomize_with", ["top"], [S(["==", b, lit(1)])]], ["randomize", ["top"]]],
+                    "soft_order_fixed": True})
     # softs in several class blocks (order between blocks not fixed by the property): maximality/guards only
     for body1, body2 in ((bodies[0], [S(["==", a, lit(3)]), S(["==", b, lit(1)])]), (bodies[2], bodies[5]), (bodies[7], bodies[1])):
         pr = one_class(fields, body1, extra_blocks=[["cb1", "c", body2]])
